@@ -1112,3 +1112,23 @@ impl<T: Actor> Clone for ActorWeak<T> {
         }
     }
 }
+
+// Verification accessors (compiled only with `--cfg rsactor_verif`; read-only).
+#[cfg(rsactor_verif)]
+impl<T: Actor> ActorWeak<T> {
+    /// Returns `(max_capacity, available_permits, strong_count, mailbox_closed)` of the
+    /// actor's mailbox channel, or zeros for the first two when no strong sender exists.
+    #[doc(hidden)]
+    pub fn __verif_counts(&self) -> (usize, usize, usize, bool) {
+        let strong = self.sender.strong_count();
+        match self.sender.upgrade() {
+            Some(sender) => (
+                sender.max_capacity(),
+                sender.capacity(),
+                strong,
+                sender.is_closed(),
+            ),
+            None => (0, 0, strong, false),
+        }
+    }
+}
